@@ -192,6 +192,45 @@ def h_expr_leaves(leaf: int, pos: int, inline: bool) -> bool:
     return done(ok)
 
 
+EXTRA = {
+    "dictcomp": "{{{0}: {1} for q in {2}}}", "setcomp": "{{{0} for q in {1}}}", "listcomp_if": "[{0} for q in {1} if {2}]", "genexp_call": "f({0} for q in {1})",
+    "walrus": "(w := {0})", "slice_step": "{0}[{1}::{2}]", "slice_full": "v[{0}:{1}:{2}]", "lambda_args": "lambda a, b={0}: {1}", "lambda_star": "lambda *a, **k: {0}",
+    "call_mixed": "f({0}, *{1}, k={2})", "attr_call": "{0}.meth({1})", "subscript_call": "{0}[{1}]({2})", "notin": "{0} not in {1}", "is": "{0} is {1}",
+    "cmp_mixed": "{0} < {1} == {2}", "boolmix": "{0} and {1} or {2}", "not": "not {0}", "neg_pow": "-{0} ** {1}", "pow_neg": "{0} ** -{1}", "await_call": "await {0}({1})",
+    "yield_from": "(yield from {0})", "ellipsis_sub": "{0}[..., {1}]", "dict_multi": "{{{0}: {1}, **{2}}}", "tuple_star": "(*{0}, {1})", "nested_ifexp": "{0} if {1} else ({2} if a else b)",
+    "str_concat": "'a' 'b' + {0}", "call_kwstar": "f(**{0}, **{1})", "generic_ann": "Dict[{0}, List[{1}]]", "callable_ann": "Callable[[{0}, {1}], {2}]",
+}
+EKEYS = list(EXTRA)
+NE = len(EKEYS)
+
+
+@harness(
+    parts=lambda: list(range(NE)), timeout=(200, 1200), cls="E", tracing="concrete-after-choice", twin="first",
+    code=["PyvalColorizer._colorize_ast* (comprehensions, walrus, slices with step, lambdas with arguments, mixed call arguments, chained comparisons, yield from, dict/tuple unpacking, annotation subscripts)", "_OperatorDelimiter"],
+    bounds={"quick": "29 further parent forms x child form (47 + plain name) x operand position", "thorough": "same"},
+    outside="f-strings (astor renders a set/dict display inside the braces as escaped braces - noted, not claimed)",
+)
+def h_expr_more(ck: int, pos: int) -> bool:
+    """
+    pre: 0 <= ck <= NK and 0 <= pos <= 2
+    post: _
+    """
+    pk = EKEYS[PART if PART is not None else 0]
+    ck = pick(ck, 0, NK)
+    pos = pick(pos, 0, 2)
+    with NoTracing():
+        tmpl = EXTRA[pk]
+        if "{%d}" % pos not in tmpl:
+            return True
+        args = ["x", "y", "z"]
+        cname = "name"
+        if ck < NK:
+            cname = KINDS[ck]
+            args[pos] = "(" + forms("a", "b", "c")[cname] + ")"
+        ok = check_expr(tmpl.format(*args), pk, cname)
+    return done(ok)
+
+
 NOP = len(OPKINDS)
 
 
